@@ -19,7 +19,12 @@ def make_env(prog, loader=None, mode=None, undefined=None, limits=None, **kw):
     if undefined is not None:
         args["undefined"] = undefined
     args.update(kw)
-    return cls(**args)
+    env = cls(**args)
+    if prog.get("snippet"):
+        from liquid.extra.tags.snippet_tag import SnippetTag  # inline snippets are not registered by extra=True
+
+        env.add_tag(SnippetTag)
+    return env
 
 
 def outcome(fn):
